@@ -42,6 +42,13 @@ func program(name, server string) (setup, burst [][]byte, files map[string]strin
 			rd(10, "1", 0, 2), wr(11, "2", 0, "xy"), rd(12, "1", 2, 2), rd(13, "2", 4, 2), wr(14, "1", 8, "zw"), rd(15, "1", 4, 2),
 			mustPkt(&sshFxpClosePacket{ID: 16, Handle: "1"}), mustPkt(&sshFxpClosePacket{ID: 17, Handle: "2"}),
 		}
+	case "short":
+		setup = [][]byte{mustPkt(&sshFxpOpenPacket{ID: 1, Path: nm("f"), Pflags: sshFxfRead | sshFxfWrite})}
+		burst = [][]byte{rd(10, "1", 0, 2), mustPkt(&sshFxpLstatPacket{ID: 11, Path: nm("missing")}), wr(12, "1", 8, "zw"), rd(13, "1", 2, 2),
+			mustPkt(&sshFxpClosePacket{ID: 14, Handle: "1"})}
+	case "rw2":
+		setup = [][]byte{mustPkt(&sshFxpOpenPacket{ID: 1, Path: nm("f"), Pflags: sshFxfRead | sshFxfWrite})}
+		burst = [][]byte{rd(10, "1", 0, 3), wr(11, "1", 12, "uv"), rd(12, "1", 3, 3)}
 	case "rw3":
 		setup = [][]byte{mustPkt(&sshFxpOpenPacket{ID: 1, Path: nm("f"), Pflags: sshFxfRead | sshFxfWrite})}
 		burst = [][]byte{rd(10, "1", 0, 3), rd(11, "1", 3, 3), wr(12, "1", 12, "uv"), rd(13, "1", 6, 3), rd(14, "1", 9, 3)}
@@ -85,27 +92,52 @@ func allocInvariant(a *allocator) string {
 	if a == nil {
 		return ""
 	}
-	seen := map[*byte]string{}
-	for _, p := range a.available {
+	// few pages exist at any time: a quadratic scan without allocation is the cheapest check
+	var pages [64]*byte
+	var owner [64]int64 // -1 = available list, else request order id
+	n := 0
+	add := func(p []byte, who int64) string {
 		if len(p) == 0 {
-			continue
+			return ""
 		}
 		k := &p[:1][0]
-		if w, ok := seen[k]; ok {
-			return "page is in the available list and also " + w
-		}
-		seen[k] = "available"
-	}
-	for _, oid := range vsched.SortedKeys(a.used) {
-		for _, p := range a.used[oid] {
-			k := &p[:1][0]
-			if w, ok := seen[k]; ok {
-				return fmt.Sprintf("page lent to request order %d is also %s", oid, w)
+		for i := 0; i < n; i++ {
+			if pages[i] == k {
+				return describeClash(owner[i], who)
 			}
-			seen[k] = fmt.Sprintf("lent to request order %d", oid)
+		}
+		if n < len(pages) {
+			pages[n], owner[n] = k, who
+			n++
+		}
+		return ""
+	}
+	for _, p := range a.available {
+		if m := add(p, -1); m != "" {
+			return m
+		}
+	}
+	for oid, ps := range a.used {
+		for _, p := range ps {
+			if m := add(p, int64(oid)); m != "" {
+				return m
+			}
 		}
 	}
 	return ""
+}
+
+func describeClash(a, b int64) string {
+	if a > b {
+		a, b = b, a
+	}
+	if a < 0 && b < 0 {
+		return "a page is in the available list twice"
+	}
+	if a < 0 {
+		return "a page lent to a request is also in the available list"
+	}
+	return "a page is lent to two requests at once"
 }
 
 type progOpts struct {
@@ -328,9 +360,9 @@ func init() {
 			} else {
 				js = []reg.Job{
 					pj("C02/sched", "rs W=8 db2", "instr", "rs", "rwmix+cmdmix+extmix", 2, 100, false),
-					pj("C02/sched", "rs W=2 db3", "instr-w2", "rs", "rwmix+cmdmix", 3, 100, false),
+					pj("C02/sched", "rs W=2 db3", "instr-w2", "rs", "short", 3, 100, false),
 					pj("C02/sched", "os W=2 db2", "instr-w2", "os", "rwmix+cmdmix+extmix", 2, 100, false),
-					pj("C02/sched", "rs W=2 alloc db2", "instr-w2", "rs", "rwmix+extmix", 2, 100, true),
+					pj("C02/sched", "rs W=2 alloc db2", "instr-w2", "rs", "rwmix+cmdmix", 2, 100, true),
 				}
 			}
 			if c02ExtraJobs != nil {
@@ -355,9 +387,11 @@ func init() {
 				}
 			} else {
 				js = []reg.Job{
-					pj("C18/sched", "rs W=8 db2", "instr", "rs", "rwmix+rw3+cmdmix+extmix", 2, 100, true),
-					pj("C18/sched", "rs W=2 db3", "instr-w2", "rs", "rwmix+rw3", 3, 100, true),
-					pj("C18/sched", "os W=2 db3", "instr-w2", "os", "rwmix+rw3", 3, 100, true),
+					pj("C18/sched", "rs W=8 db2", "instr", "rs", "rw3", 2, 100, true),
+					pj("C18/sched", "rs W=2 db2 four programs", "instr-w2", "rs", "rwmix+rw3+cmdmix+extmix", 2, 100, true),
+					pj("C18/sched", "rs W=2 db3", "instr-w2", "rs", "rw2", 3, 100, true),
+					pj("C18/sched", "os W=2 db2", "instr-w2", "os", "rwmix+rw3", 2, 100, true),
+					pj("C18/sched", "os W=2 db3", "instr-w2", "os", "rw2", 3, 100, true),
 				}
 			}
 			if c18ExtraJobs != nil {
